@@ -440,5 +440,24 @@ def main():
     finally:
         shutil.rmtree(scratch, ignore_errors=True)
 
+def guarded_main():
+    """any failure of the machinery itself (worker crash, import error in a changed tree, timeout of a whole shard)
+    means the property is no longer shown to hold: report it in the interface's terms instead of a bare traceback"""
+    try:
+        return main()
+    except SystemExit:
+        raise
+    except BaseException as e:
+        import traceback
+        pid = (sys.argv[1] if len(sys.argv) > 1 else '?').upper()
+        tb = traceback.format_exc()
+        path = write_replay(pid, {'property': pid, 'kind': 'no-failing-input-found', 'input': None,
+                                  'broken': ['harness: %s: %s' % (type(e).__name__, str(e)[:500])],
+                                  'oracle': 'the check could not be completed on this tree (implementation worker / build / model evaluation failed)',
+                                  'traceback': tb[-3000:]})
+        log('VIOLATION property=%s replay=%s no-failing-input-found' % (pid, path))
+        log(tb[-1500:])
+        return 1
+
 if __name__ == '__main__':
-    sys.exit(main())
+    sys.exit(guarded_main())
